@@ -1,8 +1,61 @@
 import AFV.Driver.Proto
+import AFV.Model.TilePrune
 namespace AFV.Driver.C08
-open Lean AFV.Proto
+open Lean AFV.Proto AFV.TilePrune
 
-/-- Handler for property C08 requests (stub: not implemented yet). -/
-def handle (_req : Json) : Json := err "unimplemented"
+def goal? : String → Option Goal
+  | "none" => some .none
+  | "min" => some .min
+  | "max" => some .max
+  | "min_per_prime_factor" => some .minPpf
+  | "max_per_prime_factor" => some .maxPpf
+  | "diff" => some .diff
+  | _ => Option.none
+
+def goalS : Goal → String
+  | .none => "none"
+  | .min => "min"
+  | .max => "max"
+  | .minPpf => "min_per_prime_factor"
+  | .maxPpf => "max_per_prime_factor"
+  | .diff => "diff"
+
+def sense? : String → Option Sense
+  | "min" => some .min
+  | "diff" => some .diff
+  | _ => Option.none
+
+/-- ops:
+  {"op":"front","senses":["min"|"diff",…],"rows":[[int,…],…]}   → [indices of non-dominated rows]
+  {"op":"cover","senses":[…],"cands":[[…]],"rows":[[…]]}          → [indices of rows no candidate weakly dominates]
+  {"op":"or","a":goal,"b":goal}                                   → goal
+  {"op":"inv","a":goal}                                           → goal | null -/
+def handle (req : Json) : Json :=
+  match (field? req "op").bind getStr? with
+  | some "front" =>
+    match (field? req "senses").bind strList?, (field? req "rows").bind getArr? with
+    | some ss, some rows =>
+      match ss.mapM sense?, rows.toList.mapM intList? with
+      | some ss, some rows =>
+        if rows.all (fun r => r.length == ss.length) then ofNatList (frontIdx ss rows) else err "malformed"
+      | _, _ => err "malformed"
+    | _, _ => err "malformed"
+  | some "cover" =>
+    match (field? req "senses").bind strList?, (field? req "cands").bind getArr?, (field? req "rows").bind getArr? with
+    | some ss, some cands, some rows =>
+      match ss.mapM sense?, cands.toList.mapM intList?, rows.toList.mapM intList? with
+      | some ss, some cands, some rows =>
+        if (cands ++ rows).all (fun r => r.length == ss.length) then ofNatList (uncovered ss cands rows) else err "malformed"
+      | _, _, _ => err "malformed"
+    | _, _, _ => err "malformed"
+  | some "or" =>
+    match ((field? req "a").bind getStr?).bind goal?, ((field? req "b").bind getStr?).bind goal? with
+    | some a, some b => Json.str (goalS (a.or b))
+    | _, _ => err "malformed"
+  | some "inv" =>
+    match ((field? req "a").bind getStr?).bind goal? with
+    | some a => (match a.inv with | some g => Json.str (goalS g) | Option.none => Json.null)
+    | Option.none => err "malformed"
+  | _ => err "bad-op"
 
 end AFV.Driver.C08
